@@ -2,16 +2,21 @@
 Driver for stream `tokens` (C05).  One op per line, one observation per line.
 
   case K                                              -> case K
-  init NOTARY NEOC C V ATTRFEE NOMINT GENESIS GASINIT -> ok            state after the natives' Initialize in block 0
-  block IDX                                           -> ok
-  onpersist PRIMARY NOTARIES NTX {SENDER SYS NET NKEYS|- PAYER|-}*     -> ok | panic | bad-op
-  tx SENDER                                           -> ok
-  transfer neo|gas SRC DST AMT WIT RECV DATA          -> .             RECV n|a|x|cb   DATA o | nt DTO|- TILL | pk PUB WIT
-  vote ACC PUB|- WIT | register PUB | unregister PUB WIT | lock ACC TILL WIT
-  withdraw SRC DST|- WIT RECV | setgpb GAS WIT | setregprice P WIT | endcb            -> .
+  init NOTARY NEOC GASC POLICYC C V ATTRFEE NOMINT GENESIS GASINIT STANDBY KEYACC MSIG
+                                                      -> ok            state after block 0's OnPersist (natives initialised)
+       STANDBY k,k,..   KEYACC k:acc,..   MSIG acc:k:k:..,..|-
+  block IDX                                           -> ok | ok cc    cc = CommitteeChanged is emitted
+  onpersist PRIMARYINDEX NOTARIES NTX {SENDER SYS NET NKEYS|- PAYER|-}*     -> ok | panic | bad-op
+  tx SENDER SIGNERS                                   -> ok            SIGNERS acc:scopes[:allowed..],..
+  transfer neo|gas SRC DST AMT CALLER RECV DATA       -> .             RECV n|a|x|cb   DATA o | nt DTO|- TILL | pk PUB
+                                                                       CALLER = calling contract or - (entry script)
+  vote ACC PUB|- CALLER | register PUB | unregister PUB CALLER | lock ACC TILL CALLER
+  withdraw SRC DST|- CALLER RECV | setgpb GAS CALLER | setregprice P CALLER
+  blockacc ACC CALLER | unblockacc ACC CALLER | endcb                                 -> .
   endtx ABORT                                         -> HALT r1 r2 .. | FAULT
-  postpersist pub:acc:votes,...                       -> ok | panic | bad-op
-  endblock                                            -> st neo=.. gas=.. cands=.. vc=.. dep=.. gpv=..
+  postpersist                                         -> ok | panic
+  endblock                                            -> st neo=.. gas=.. cands=.. vc=.. dep=.. gpv=.. cm=.. nv=.. nev=..
+                                                            gc=.. gcm=.. bl=.. uc=.. mb=.. ev=..
 -/
 import NeoModel.Base.Proto
 import NeoModel.Model.Tokens
@@ -31,6 +36,30 @@ def showList {α : Type} (m : List (Nat × α)) (f : Nat → α → String) : St
 def showVote : Option Nat → String
   | none => "-"
   | some p => toString p
+
+def showRaw {α : Type} (m : List α) (f : α → String) : String :=
+  "[" ++ ",".intercalate (m.map f) ++ "]"
+
+def showOptNat : Option Nat → String
+  | none => "-"
+  | some p => toString p
+
+def showEvent (e : Event) : String :=
+  (match e.tok with | .neo => "n" | .gas => "g") ++ ":" ++ showOptNat e.src ++ ":" ++ showOptNat e.dst ++ ":" ++ toString e.amt
+
+def natLe (a b : Nat) : Bool := decide (a ≤ b)
+
+/-- the observations of the governance getters and of the reward formulas after the block `e.index`. -/
+def govLine (e : Env) (l : Ledger) : String :=
+  " cm=" ++ showRaw l.committee (fun c => s!"{c.1}:{c.2}") ++
+  " nv=" ++ showRaw l.nextVals toString ++
+  " nev=" ++ showRaw l.neVals toString ++
+  " gc=" ++ showRaw (candsByKey e l 256) (fun c => s!"{c.1}:{c.2}") ++
+  " gcm=" ++ showRaw (sortBy natLe (l.committee.map (·.1))) toString ++
+  " bl=" ++ showRaw (sortBy natLe l.blocked) toString ++
+  " uc=" ++ showList l.neo (fun k a => s!"{k}:{match calcBonus l a (e.index + 1) with | some g => toString g | none => "err"}") ++
+  " mb=" ++ toString l.gasMinted ++ ":" ++ toString l.gasBurned ++
+  " ev=" ++ showRaw l.events showEvent
 
 def stateLine (l : Ledger) : String :=
   "st neo=" ++ toString l.neoSupply ++
@@ -60,10 +89,9 @@ def parseData : List String → Option Data
     let d ← optNat dto
     let t ← till.toNat?
     pure (.notary d t)
-  | ["pk", p, w] => do
+  | ["pk", p] => do
     let p ← p.toNat?
-    let w ← parseBool w
-    pure (.pub p w)
+    pure (.pub p)
   | _ => none
 
 def parseNatList (s : String) : Option (List Nat) :=
@@ -90,6 +118,28 @@ def parseMember (s : String) : Option (Nat × Nat × Int) :=
     pure (p, a, v)
   | _ => none
 
+def parseSigner (s : String) : Option Signer :=
+  match s.splitOn ":" with
+  | a :: sc :: allowed => do
+    let a ← a.toNat?
+    let sc ← sc.toNat?
+    let al ← allowed.mapM String.toNat?
+    pure ⟨a, sc, al⟩
+  | _ => none
+
+def parseList {α : Type} (f : String → Option α) (s : String) : Option (List α) :=
+  if s == "-" then some [] else (s.splitOn ",").mapM f
+
+def parsePair (s : String) : Option (Nat × Nat) :=
+  match s.splitOn ":" with
+  | [a, b] => do pure (← a.toNat?, ← b.toNat?)
+  | _ => none
+
+def parseMsig (s : String) : Option (Nat × List Nat) :=
+  match s.splitOn ":" with
+  | a :: ks => do pure (← a.toNat?, ← ks.mapM String.toNat?)
+  | _ => none
+
 def parseOp : List String → Option Op
   | ["block", i] => do pure (.block (← i.toNat?))
   | "onpersist" :: primary :: notaries :: ntx :: rest => do
@@ -98,21 +148,21 @@ def parseOp : List String → Option Op
     let n ← ntx.toNat?
     let txs ← parseTxs n rest
     pure (.onPersist p ns txs)
-  | ["tx", s] => do pure (.txBegin (← s.toNat?))
-  | "transfer" :: t :: src :: dst :: amt :: wit :: recv :: data => do
-    pure (.transfer (← parseTok t) (← src.toNat?) (← dst.toNat?) (← amt.toInt?) (← parseBool wit) (← parseRecv recv) (← parseData data))
-  | ["vote", a, p, w] => do pure (.vote (← a.toNat?) (← optNat p) (← parseBool w))
+  | ["tx", s, sg] => do pure (.txBegin (← s.toNat?) (← parseList parseSigner sg))
+  | "transfer" :: t :: src :: dst :: amt :: c :: recv :: data => do
+    pure (.transfer (← parseTok t) (← src.toNat?) (← dst.toNat?) (← amt.toInt?) (← optNat c) (← parseRecv recv) (← parseData data))
+  | ["vote", a, p, c] => do pure (.vote (← a.toNat?) (← optNat p) (← optNat c))
   | ["register", p] => do pure (.register (← p.toNat?))
-  | ["unregister", p, w] => do pure (.unregister (← p.toNat?) (← parseBool w))
-  | ["lock", a, t, w] => do pure (.lock (← a.toNat?) (← t.toNat?) (← parseBool w))
-  | ["withdraw", s, d, w, r] => do pure (.withdraw (← s.toNat?) (← optNat d) (← parseBool w) (← parseRecv r))
-  | ["setgpb", g, w] => do pure (.setGpb (← g.toInt?) (← parseBool w))
-  | ["setregprice", p, w] => do pure (.setRegPrice (← p.toInt?) (← parseBool w))
+  | ["unregister", p, c] => do pure (.unregister (← p.toNat?) (← optNat c))
+  | ["lock", a, t, c] => do pure (.lock (← a.toNat?) (← t.toNat?) (← optNat c))
+  | ["withdraw", s, d, c, r] => do pure (.withdraw (← s.toNat?) (← optNat d) (← optNat c) (← parseRecv r))
+  | ["setgpb", g, c] => do pure (.setGpb (← g.toInt?) (← optNat c))
+  | ["setregprice", p, c] => do pure (.setRegPrice (← p.toInt?) (← optNat c))
+  | ["blockacc", a, c] => do pure (.blockAcc (← a.toNat?) (← optNat c))
+  | ["unblockacc", a, c] => do pure (.unblockAcc (← a.toNat?) (← optNat c))
   | ["endcb"] => some .endCb
   | ["endtx", a] => do pure (.txEnd (← parseBool a))
-  | ["postpersist", ms] => do
-    let l ← (if ms == "-" then some [] else (ms.splitOn ",").mapM parseMember)
-    pure (.postPersist l)
+  | ["postpersist"] => some .postPersist
   | _ => none
 
 def showRes : Res → String
@@ -122,9 +172,9 @@ def showRes : Res → String
 
 def output (s : St) (op : Op) (s' : St) : String :=
   match op with
-  | .block _ => "ok"
-  | .txBegin _ => "ok"
-  | .onPersist .. | .postPersist .. =>
+  | .block _ => if s.env.csize ≠ 0 ∧ s'.env.index % s.env.csize = 0 ∧ committeeChanged s.cur then "ok cc" else "ok"
+  | .txBegin .. => "ok"
+  | .onPersist .. | .postPersist =>
     if s'.panicked && !s.panicked then "panic" else "ok"
   | .txEnd _ =>
     match s'.last with
@@ -135,16 +185,20 @@ def output (s : St) (op : Op) (s' : St) : String :=
 def step (s : Option St) (ws : List String) : Option St × String :=
   match ws with
   | ["case", k] => (none, s!"case {k}")
-  | ["init", notary, neoC, c, v, fee, nm, g, gi] =>
-    match notary.toNat?, neoC.toNat?, c.toNat?, v.toNat?, fee.toInt?, parseNatList nm, g.toNat?, gi.toInt? with
-    | some notary, some neoC, some c, some v, some fee, some nm, some g, some gi =>
-      match genesis g gi with
-      | some l => (some (initSt ⟨notary, neoC, c, v, fee, nm, 0, 0⟩ l), "ok")
+  | ["init", notary, neoC, gasC, policyC, c, v, fee, nm, g, gi, sb, ka, ms] =>
+    match notary.toNat?, neoC.toNat?, gasC.toNat?, policyC.toNat?, c.toNat?, v.toNat?, fee.toInt?, parseNatList nm,
+        g.toNat?, gi.toInt?, parseNatList sb, parseList parsePair ka, parseList parseMsig ms with
+    | some notary, some neoC, some gasC, some policyC, some c, some v, some fee, some nm, some g, some gi, some sb,
+        some ka, some ms =>
+      let e : Env := { notary := notary, neoC := neoC, csize := c, vcount := v, attrFee := fee, noMint := nm,
+                       standby := sb, keyAcc := ka, gasC := gasC, policyC := policyC, msig := ms }
+      match genesis e g gi with
+      | some l => (some (initSt e l), "ok")
       | none => (none, "panic")
-    | _, _, _, _, _, _, _, _ => (s, "bad-op")
+    | _, _, _, _, _, _, _, _, _, _, _, _, _ => (s, "bad-op")
   | ["endblock"] =>
     match s with
-    | some st => (s, stateLine st.cur)
+    | some st => (s, stateLine st.cur ++ govLine st.env st.cur)
     | none => (s, "no-state")
   | _ =>
     match s, parseOp ws with
